@@ -24,7 +24,7 @@ From SK Require Import lib.Tok lib.LGraph model.C03_Model proof.C03_Spec proof.C
                        proof.C03_PairIdsComplete proof.C03_Wrap proof.C03_DefaultBalance
                        proof.C03_DefaultEnd proof.C03_DefaultWiring
                        model.C03_Order proof.C03_Ord proof.C03_FirstFit proof.C03_OrdEnd
-                       model.C03_Reactor proof.C03_ReactorProof.
+                       model.C03_Reactor proof.C03_ReactorProof proof.C03_ReactorSpec proof.C03_Capstone.
 Import ListNotations.
 Local Open Scope Z_scope.
 
@@ -836,4 +836,48 @@ Proof.
   split; [exact (reverse_involutive r p Hr Hp)|exact (last_join r p Hr Hp)].
 Qed.
 Print Assumptions C03_reverse_reaction.
+
+(** ** capstone: every graph its_list returns is a genuine instance of the rule — the property itself, stated about the
+    list the reactor returns (whatever was read before, C03_reads_stable), for every substrate, rule, set of matcher answers,
+    hydrogen mode (explicit stage on / off, direct / expanded route) and every visiting order.
+    Hypotheses: the inputs are well formed and the matcher's answers are valid matches ([call_okb], model/C03_Reactor.v;
+    evaluated on every scripted case through [hyps_okb]).  Conclusion, for every g in the list ([instance_of],
+    proof/C03_ReactorSpec.v, written out here): there are a base graph hb (the substrate, or the substrate with some
+    implicit hydrogens written as H atoms), a valid match m and the glued graph T with g = T or g = _explicit_h(T), and
+    (a) the reactant side of g has the SUBSTRATE's element counts (hydrogen = atoms + counts), total charge and — between
+        substrate atoms — exactly the substrate's bonds;
+    (b) if the rule is balanced both sides of g have the same element counts and charge;
+    (c) the changed bonds of T are exactly the m-images of the rule's changed bonds with equal order changes, and g has in
+        addition only the donor-H / H-recipient bonds of the re-materialised hydrogens, each joining a donor and a
+        recipient of ONE hydrogen-transfer group. *)
+Theorem C03_its_list_instances : forall (inp : rin) (rc : its) (l r : molg) (gs : list its),
+  i_rule inp = Some (rc, l, r) -> wf_hostb (i_host inp) = true -> wf_rcb rc = true ->
+  forallb (call_okb (has_XH l) (i_host inp) rc) (i_calls inp) = true ->
+  spec_its inp = Some gs ->
+  forall g : its, In g gs ->
+  exists (hb : hostg) (m : mapping) (T : its) (tbl : list (list N)),
+    (hb = i_host inp \/ exists nodes : list N, hb = h_to_explicit (i_host inp) nodes) /\
+    wf_hostb hb = true /\ match_rcb hb rc m = true /\ glue hb rc m = Some T /\
+    (g = T \/ exists ms : list (N * N), explicit_h_ord (ord_of tbl) T = Some (g, ms)) /\
+    (forall e : N, elem_count e (fst (its_decompose g)) = elem_count e (mol_of_host (i_host inp))) /\
+    total_charge (fst (its_decompose g)) = total_charge (mol_of_host (i_host inp)) /\
+    (forall a b : N, In a (node_ids (i_host inp)) -> In b (node_ids (i_host inp)) -> bondG g a b = adj (i_host inp) a b) /\
+    (balancedb rc = true ->
+       (forall e : N, elem_count e (fst (its_decompose g)) = elem_count e (snd (its_decompose g))) /\
+       total_charge (fst (its_decompose g)) = total_charge (snd (its_decompose g))) /\
+    Permutation (changed_bonds T) (image_changed_bonds m rc) /\
+    (forall ms : list (N * N), explicit_h_ord (ord_of tbl) T = Some (g, ms) ->
+       changed_bonds g = changed_bonds T ++ map bond_key (new_edges (N.succ (max_id T)) ms) /\
+       forall sd : N * N, In sd ms -> same_group T (fst sd) (snd sd) /\ 0 < dl_of T (fst sd) /\ dl_of T (snd sd) < 0).
+Proof. exact its_list_sound. Qed.
+Print Assumptions C03_its_list_instances.
+
+(** ... and through the state machine: every graph in every list any script of reads returns on a fresh reactor *)
+Theorem C03_reads_return_instances : forall (inp : rin) (rc : its) (l r : molg),
+  i_rule inp = Some (rc, l, r) -> wf_hostb (i_host inp) = true -> wf_rcb rc = true ->
+  forallb (call_okb (has_XH l) (i_host inp) rc) (i_calls inp) = true -> nocrash inp ->
+  forall (ops : list rop) (gs : list its), In (Vits gs) (run_ops inp rs0 ops) ->
+  forall g : its, In g gs -> instance_of (i_host inp) rc g.
+Proof. exact reads_return_instances. Qed.
+Print Assumptions C03_reads_return_instances.
 
